@@ -29,6 +29,26 @@ func liveToV(x zygo.Sexp, depth int) *V {
 		return &V{K: 'S', S: t.S, BT: strings.HasPrefix(p, "`")}
 	case *zygo.SexpSymbol:
 		return &V{K: 'Y', S: t.Name()}
+	case *zygo.SexpPair:
+		v := &V{K: 'L'}
+		var cur zygo.Sexp = t
+		for {
+			p, ok := cur.(*zygo.SexpPair)
+			if !ok {
+				break
+			}
+			c := liveToV(p.Head, depth+1)
+			if c == nil {
+				return nil
+			}
+			v.Items = append(v.Items, c)
+			cur = p.Tail
+		}
+		v.Tail = liveToV(cur, depth+1)
+		if v.Tail == nil {
+			return nil
+		}
+		return v
 	case *zygo.SexpArray:
 		v := &V{K: 'A'}
 		for _, e := range t.Val {
@@ -74,7 +94,7 @@ func scrCase(env *zygo.Zlisp, expr string, tags ...string) {
 	valCaseSexp(env, v, r.Val, "scr", encStr("", expr)[1:]+" ", true, true, tags...)
 }
 
-var scrContents = []string{"a", "b c", "%", "50% done", "%d", "x`y", "`", "``", "tick ` tock", "q\"r", "back\\slash", "tab\tx", "é", "λ😀", "", " ", "a:b", "{k:1}", "[1 2]", "(+ 1 2)", "// no", "/* c */", "#", "~@", "nl\nx"}
+var scrContents = []string{"a", "b c", "%", "50% done", "%d", "x`y", "`", "``", "tick ` tock", "q\"r", "back\\slash", "tab\tx", "é", "λ😀", "", " ", "a:b", "{k:1}", "[1 2]", "(+ 1 2)", "// no", "/* c */", "#", "~@", "nl\nx", "a\n\nb", "a\n   \nb", "\n\nlead", "trail\n\n", "\n", "p1\n\t\np2 `", "x\n \n\n y"}
 
 // quoted literal with only the escapes the reader knows; backtick literal: content verbatim, no backtick inside
 func quotedLit(s string) string {
@@ -117,7 +137,7 @@ func scriptStream(rng *lib.Rng, n int) {
 	// a fixed grid: every content as backtick / quoted first argument, with a later argument that brings a backtick
 	for _, c := range scrContents {
 		for _, first := range []string{backtickLit(c), quotedLit(c)} {
-			for _, e := range []string{first, "(concat " + first + " \"`\")", "(concat " + first + " \"x\" \"`ls`\")", "(append " + first + " '`')",
+			for _, e := range []string{first, "[1 " + first + " -2]", "(quote (a [" + first + "] \\ " + first + "))", "(concat " + first + " \"`\")", "(concat " + first + " \"x\" \"`ls`\")", "(append " + first + " '`')",
 				"(concat " + first + " " + first + ")", "[(concat " + first + " \"`\") " + first + "]", "(hash k: (concat " + first + " \"` `\"))"} {
 				scrCase(env, e, "stream:script", "script:grid")
 			}
